@@ -10,6 +10,10 @@ import PqlModel.Props.C07OperatorIRExtend
 import PqlModel.Props.C07OperatorIRProject
 import PqlModel.Props.C07OperatorIRLet
 import PqlModel.Props.C07OperatorIRTabular
+import PqlModel.Props.C07OperatorIRSummarize
+import PqlModel.Props.C07OperatorIRRender
+import PqlModel.Props.C07OperatorIRJoin
+import PqlModel.Props.C07OperatorIRParse
 #print axioms Pql.C13.C13_either
 #print axioms Pql.C13.C13_arity_table
 #print axioms Pql.C13.C13_arity_agrees
